@@ -546,7 +546,11 @@ class SubtypeUnpackerBuilder(DiscriminatedUnionUnpackerBuilder):
     def _get_variants_attr(self, spec: ValueSpec) -> str:
         if self._variants_attr is None:
             assert self.discriminator.include_subtypes
-            self._variants_attr = "__mashumaro_subtype_variants__"
+            # every format compiles its own variant unpackers, so the
+            # registry that tells which variants are ready is per format
+            self._variants_attr = (
+                f"__mashumaro_subtype_variants_{spec.builder.format_name}__"
+            )
         return self._variants_attr
 
 
